@@ -137,6 +137,7 @@ class C20(Prop):
         "location line (file:line:col); their snippet rendering is not modelled",
         "output parsers for rich/quiet/json/json2/luacheck in vlib/cli.py (quiet is read in its own format only)",
         "label messages, secondary labels and notes of json / json2 are compared with the library-level diagnostic by the driver (Python), not in Coq",
+        "json / json2 are also run under --color always / never / auto and must print the same bytes",
         "the file is named on the command line as f.lua, ./f.lua, an absolute path or ../dir/f.lua; every style must print that name",
         "library-level diagnostics are taken from Checker::test_on via the harness (lints are oracles here)",
     ]
